@@ -632,6 +632,9 @@ func Check(c Case) ([]evid.Violation, info) {
 		return fail("replies", "reply-count", "client saw %d replies, handler sent %d (%s)", len(gotReplies), len(wantReplies), brief(c, len(body)))
 	}
 	for i := range wantReplies {
+		if proto.Unmarshal(gotReplies[i], dynamicpb.NewMessage(w.MsgDesc("un.All"))) != nil {
+			return fail("replies", "reply-undecodable", "reply %d as the client received it (%d bytes, %x...) does not decode; the handler sent {%v}", i, len(gotReplies[i]), trunc(gotReplies[i]), describe(w, wantReplies[i]))
+		}
 		if !bytes.Equal(canon(w, gotReplies[i]), canon(w, wantReplies[i])) {
 			return fail("replies", "reply-differs", "reply %d: client saw {%v} want {%v}", i, describe(w, gotReplies[i]), describe(w, wantReplies[i]))
 		}
@@ -814,7 +817,7 @@ func TestProp(t *testing.T) {
 			for _, m := range c.Msgs {
 				sizes = append(sizes, strconv.Itoa(len(m)))
 			}
-			key = fmt.Sprintf("%s|%s|%v|%s|%d|%v|%v|%d|%v|%d", c.Transport, c.Shape, c.Gzip, c.PlainFrames, strings.Join(sizes, ","), len(c.Replies), c.Chunks, c.EOFWithLast, c.TruncateAt, c.PingPong, c.FinalCode)
+			key = fmt.Sprintf("%s|%s|%v|%v|%s|%d|%v|%v|%d|%v|%d", c.Transport, c.Shape, c.Gzip, c.PlainFrames, strings.Join(sizes, ","), len(c.Replies), c.Chunks, c.EOFWithLast, c.TruncateAt, c.PingPong, c.FinalCode)
 		}
 		evid.Eval(key, cl...)
 		evid.Sample(c.Transport+"/"+c.Shape, map[string]any{"brief": brief(c, -1), "replies": len(c.Replies), "final_code": c.FinalCode})
